@@ -660,6 +660,9 @@ pub proof fn lemma_xz_roundtrip(e: Seq<u8>, data: Seq<u8>)
     hide(sp_multibyte);
     hide(sp_xz_index);
     hide(sp_index_records);
+    hide(sp_xz_blocks);
+    hide(sp_xz_header_ok);
+    hide(sp_xz_footer_ok);
     reveal(sp_xz);
     let n = data.len();
     let u: nat = 12 + e.len();
